@@ -61,7 +61,7 @@ impl TableDP {
             if !imp[k * b + bb] { tab[(k * b + bb) * d] = Some((bb, 0)); continue; }
             for dd in 0..d { if !rng.chance(1, 12) { tab[(k * b + bb) * d + dd] = Some((rng.below(b as u64) as usize, rng.range(-2, 4) as isize)); } }
         }}
-        let mut t = TableDP { n, b, d, embed: !long_arcs && rng.chance(1, 2), relax_mode: rng.below(2) as usize, rub_mode: rng.below(3) as usize,
+        let mut t = TableDP { n, b, d, embed: !long_arcs && rng.chance(1, 2), relax_mode: rng.below(2) as usize, rub_mode: *rng.pick(&[0usize, 0, 0, 1, 2, 2]),
             rank_mode: 0, dom_mode: if rng.chance(1, 4) { 1 } else { 0 }, slack: rng.range(0, 2) as isize, tab, imp, hstar: vec![] };
         t.compute_hstar();
         t
@@ -79,7 +79,7 @@ impl TableDP {
             if !imp[k * b + bb] { tab[(k * b + bb) * d] = Some((bb, 0)); continue; }
             for dd in 0..d { if !rng.chance(dead, 100) { tab[(k * b + bb) * d + dd] = Some((rng.below(b as u64) as usize, rng.range(cost_lo, 4) as isize)); } }
         }}
-        let mut t = TableDP { n, b, d, embed: !long_arcs && rng.chance(1, 2), relax_mode: rng.below(2) as usize, rub_mode: rng.below(3) as usize,
+        let mut t = TableDP { n, b, d, embed: !long_arcs && rng.chance(1, 2), relax_mode: rng.below(2) as usize, rub_mode: *rng.pick(&[0usize, 0, 0, 1, 2, 2]),
             rank_mode: if rng.chance(1, 6) { 1 } else { 0 }, dom_mode: if rng.chance(1, 4) { 1 } else { 0 }, slack: rng.range(0, 2) as isize, tab, imp, hstar: vec![] };
         t.compute_hstar();
         t
